@@ -24,6 +24,25 @@ class PathEnd(Exception):
         self.kind, self.info = kind, info
 
 
+class Unwound(Exception):
+    """An exception thrown by the code under test found a handler: control was transferred to a landing pad of
+    some frame (the frames above it are gone); the main loop continues with the new top frame."""
+
+
+# std exception hierarchy (libstdc++), for typeinfo objects that are external to the module: name -> base
+EH_STD_BASES = {
+    '_ZTISt9exception': None,
+    '_ZTISt13runtime_error': '_ZTISt9exception', '_ZTISt11logic_error': '_ZTISt9exception',
+    '_ZTISt9bad_alloc': '_ZTISt9exception', '_ZTISt8bad_cast': '_ZTISt9exception', '_ZTISt10bad_typeid': '_ZTISt9exception',
+    '_ZTISt13bad_exception': '_ZTISt9exception', '_ZTISt20bad_array_new_length': '_ZTISt9bad_alloc',
+    '_ZTISt12length_error': '_ZTISt11logic_error', '_ZTISt12out_of_range': '_ZTISt11logic_error',
+    '_ZTISt16invalid_argument': '_ZTISt11logic_error', '_ZTISt12domain_error': '_ZTISt11logic_error',
+    '_ZTISt14overflow_error': '_ZTISt13runtime_error', '_ZTISt15underflow_error': '_ZTISt13runtime_error',
+    '_ZTISt11range_error': '_ZTISt13runtime_error', '_ZTISt18bad_variant_access': '_ZTISt9exception',
+    '_ZTISt19bad_optional_access': '_ZTISt9exception',
+}
+
+
 class Obj:
     _n = 0
 
@@ -184,6 +203,12 @@ class Exec:
         self.cur_instr = None
         self.ninstr = 0
         self.notes = []
+        # C++ exception handling state (see the "exception handling" section below)
+        self.eh_inflight = None   # (exception record, selector) between the transfer to a landing pad and its landingpad instruction
+        self.eh_live = {}         # exception object id -> exception record
+        self.eh_caught = []       # stack of records between __cxa_begin_catch and __cxa_end_catch
+        self.eh_typeids = {}      # typeinfo name (None = catch-all) -> selector value of llvm.eh.typeid.for
+        self.eh_log = []          # ('throw'|'land'|'catch'|'rethrow'|'resume', type) - for evidence / self-tests
 
     # ---- solver -------------------------------------------------------------------------
     def tr(self, t):
@@ -967,6 +992,8 @@ class Exec:
             if n:
                 self.store_bytes(dst, [val] * n)
             return None
+        if name.startswith('llvm.eh.typeid.for'):
+            return self.eh_typeid(self.eh_tinfo_name(argv[0]))
         base = name.split('.')[1]
         if base in ('umin', 'umax', 'smin', 'smax'):
             w = self.m.resolve(args[0][0])[1]
@@ -1005,6 +1032,166 @@ class Exec:
             fr.idx += 1
         for d, v in vals:
             fr.regs[d] = v
+
+    # ---- C++ exception handling (Itanium ABI as clang lowers it) -------------------------------
+    # A throw (the __cxa_throw / __cxa_rethrow stubs, library stubs that throw) is resolved in two phases like the
+    # personality routine does: (1) search the IR call stack, innermost first, for an `invoke` whose landing pad
+    # has a catch clause matching the thrown type (same typeinfo, a base class of it, or catch-all); if there is
+    # none the path ends with outcome throws(type) at the throw site, exactly as before (cleanups are not run:
+    # nothing executes afterwards).  (2) otherwise control is transferred to the landing pad of the innermost
+    # pending `invoke` whose pad has a cleanup or a matching clause; frames above it are popped (their allocas
+    # die); `landingpad` yields {exception pointer, selector}; cleanup pads end in `resume`, which continues the
+    # unwinding from the caller of the resuming frame.
+    def eh_tinfo_name(self, p):
+        if isinstance(p, Ptr) and p.obj is not None:
+            return p.obj.name.lstrip('@')
+        if isinstance(p, Ptr) and is_c(p.off) and p.off == 0:
+            return None
+        raise Unsupported("typeinfo operand is not a global")
+
+    def eh_typeid(self, name):
+        t = self.eh_typeids.get(name)
+        if t is None:
+            t = self.eh_typeids[name] = len(self.eh_typeids) + 1
+        return t
+
+    def _eh_global_in(self, tv):
+        """the global a constant operand (possibly wrapped in bitcast / getelementptr) refers to"""
+        v = tv[1] if isinstance(tv, tuple) and len(tv) == 2 and isinstance(tv[1], tuple) else tv
+        seen = 0
+        while isinstance(v, tuple) and seen < 8:
+            seen += 1
+            if v[0] == 'global':
+                return v[1]
+            if v[0] == 'null':
+                return None
+            if v[0] == 'cexpr' and v[1] == 'gep':
+                v = v[3][1]
+            elif v[0] == 'cexpr' and v[1] in ('bitcast', 'addrspacecast'):
+                v = v[2][1]
+            else:
+                break
+        raise Unsupported("typeinfo initialiser operand %r" % (tv,))
+
+    def eh_base_of(self, name):
+        """direct base class typeinfo of a class typeinfo (None = no base); single inheritance only"""
+        g = self.m.globals.get(name)
+        if g is not None and g[1] is not None and g[1][0] == 'agg':
+            els = g[1][1]
+            vt = self._eh_global_in(els[0]) or ''
+            if '__si_class_type_info' in vt and len(els) == 3:
+                return self._eh_global_in(els[2])
+            if '__class_type_info' in vt and '__si_' not in vt and '__vmi_' not in vt:
+                return None
+            raise Unsupported("typeinfo %s of kind %s (only classes with at most one base are modelled)" % (name, vt))
+        if name in EH_STD_BASES:
+            return EH_STD_BASES[name]
+        if len(name) == 5 and name.startswith('_ZTI') and name[4].islower():
+            return None   # fundamental type (throw 1;)
+        raise Unsupported("base classes of the thrown type %s are unknown" % name)
+
+    def eh_matches(self, thrown, clause):
+        if clause is None or thrown == clause:
+            return True
+        if not clause.startswith('_ZTI') or clause.startswith('_ZTIP') or thrown.startswith('_ZTIP'):
+            raise Unsupported("catch clause of type %s against thrown %s" % (clause, thrown))
+        t, n = thrown, 0
+        while t is not None and n < 16:
+            if t == clause:
+                return True
+            t = self.eh_base_of(t)
+            n += 1
+        return False
+
+    def eh_selector(self, fr, inv, exc):
+        """what the landing pad of `inv` (an invoke of frame fr) does with exc: a positive selector = handler,
+        0 = cleanup only, None = the pad is skipped"""
+        blk = fr.fn.blocks[inv.a[4]]
+        lp = None
+        for i_ in blk:
+            if i_.op != 'phi':
+                lp = i_
+                break
+        if lp is None or lp.op != 'landingpad':
+            raise Unsupported("unwind destination without a landingpad")
+        cleanup = False
+        for cl in lp.a[1]:
+            if cl[0] == 'cleanup':
+                cleanup = True
+            elif cl[0] == 'catch':
+                name = self.eh_tinfo_name(self.const(cl[1][0], cl[1][1]))
+                if self.eh_matches(exc['tinfo'], name):
+                    return self.eh_typeid(name)
+            else:
+                raise Unsupported("landingpad %s clause" % cl[0])
+        return 0 if cleanup else None
+
+    def eh_new(self, ptr, tinfo, pretty, msg=''):
+        """exception record for a thrown object (ptr None: a library stub threw, the object is synthesised)"""
+        if not (isinstance(ptr, Ptr) and ptr.obj is not None):
+            ptr = Ptr(Obj('exception', 16), 0)
+        exc = dict(ptr=ptr, tinfo=tinfo, type=pretty, msg=msg, site=self._site_info(), rethrown=False)
+        self.eh_live[ptr.obj.id] = exc
+        return exc
+
+    def eh_throw(self, exc):
+        """called by a stub while the top frame executes the call / invoke instruction self.cur_instr; never returns"""
+        self.eh_log.append(('throw', exc['type']))
+        self._eh_unwind(exc, self.cur_instr)
+
+    def _eh_unwind(self, exc, pending):
+        frames = self.frames
+        found = False
+        for i in range(len(frames) - 1, -1, -1):
+            c = pending if i == len(frames) - 1 else frames[i].call
+            if c is not None and c.op == 'invoke' and self.eh_selector(frames[i], c, exc):
+                found = True
+                break
+        if not found:
+            raise PathEnd('throws', type=exc['type'], msg=exc['msg'], **exc['site'])
+        first = True
+        while frames:
+            fr = frames[-1]
+            c = pending if first else fr.call
+            first = False
+            if c is not None and c.op == 'invoke':
+                sel = self.eh_selector(fr, c, exc)
+                if sel is not None:
+                    fr.call = None
+                    self.eh_inflight = (exc, sel)
+                    self.eh_log.append(('land', '%s:%s' % (fr.fn.name[:60], 'catch' if sel else 'cleanup')))
+                    self.goto(fr, c.a[4])
+                    raise Unwound()
+            for o in fr.allocas:
+                o.alive = False
+            frames.pop()
+        raise Unsupported("unwinding ran out of frames")
+
+    def eh_begin_catch(self, p):
+        exc = self.eh_live.get(p.obj.id) if isinstance(p, Ptr) and p.obj is not None else None
+        if exc is None:
+            raise Unsupported("__cxa_begin_catch of an unknown exception object")
+        self.eh_caught.append(exc)
+        self.eh_log.append(('catch', exc['type']))
+        return exc['ptr']
+
+    def eh_end_catch(self):
+        if not self.eh_caught:
+            raise Unsupported("__cxa_end_catch without a caught exception")
+        exc = self.eh_caught.pop()
+        if exc['rethrown']:
+            exc['rethrown'] = False       # still in flight: the object stays alive
+        elif exc not in self.eh_caught:
+            exc['ptr'].obj.alive = False  # the exception object is destroyed
+            self.eh_live.pop(exc['ptr'].obj.id, None)
+
+    def eh_rethrow(self):
+        if not self.eh_caught:
+            raise PathEnd('terminate', why='__cxa_rethrow without a caught exception', **self._site_info())
+        exc = self.eh_caught[-1]
+        exc['rethrown'] = True
+        self.eh_log.append(('rethrow', exc['type']))
+        self._eh_unwind(exc, self.cur_instr)
 
     # ---- main loop ----------------------------------------------------------------------------
     def run(self, fname, argv):
@@ -1055,7 +1242,10 @@ class Exec:
             elif op == 'select':
                 fr.regs[ins.dest] = self.select(self.val(a[0][0], a[0][1]), a[1][0], self.val(a[1][0], a[1][1]), self.val(a[2][0], a[2][1]))
             elif op in ('call', 'invoke'):
-                if self.do_call(ins):
+                try:
+                    if self.do_call(ins):
+                        continue
+                except Unwound:
                     continue
             elif op == 'ret':
                 rv = self.val(a[0], a[1]) if a is not None else None
@@ -1108,8 +1298,27 @@ class Exec:
                 fr.regs[ins.dest] = v
             elif op == 'freeze':
                 fr.regs[ins.dest] = self.val(a[0], a[1])
-            elif op in ('landingpad', 'resume'):
-                raise Unsupported("exception unwinding reached a %s" % op)
+            elif op == 'landingpad':
+                if self.eh_inflight is None:
+                    raise Unsupported("landingpad reached without an exception in flight")
+                exc, sel = self.eh_inflight
+                self.eh_inflight = None
+                fr.regs[ins.dest] = [exc['ptr'], sel]
+            elif op == 'resume':
+                v = self.val(a[0], a[1])
+                p = v[0] if isinstance(v, list) and v else None
+                exc = self.eh_live.get(p.obj.id) if isinstance(p, Ptr) and p.obj is not None else None
+                if exc is None:
+                    raise Unsupported("resume of an unknown exception object")
+                self.eh_log.append(('resume', exc['type']))
+                for o in fr.allocas:
+                    o.alive = False
+                self.frames.pop()
+                try:
+                    self._eh_unwind(exc, self.frames[-1].call if self.frames else None)
+                except Unwound:
+                    pass
+                continue
             elif op == 'unsupported':
                 raise Unsupported("unparsed instruction: %s (%s)" % (ins.text[:120], a[0]))
             else:
